@@ -4,7 +4,7 @@ import common, p_vxbase, cli_cfg
 ASSUME = {
  "C17": ["the generated files are produced by the real `monorail config generate`; load+check is Config::new + Config::check as cli::handle calls them (the CLI slice binds this to every subcommand)",
          "single edits only (one byte edit, truncation or append per case)"],
- "C18": ["serialisations differ in whitespace, key order and size only; values outside the three bases are not explored"],
+ "C18": ["serialisations differ in whitespace, key order and size only; values outside the four bases (three sizes; one with quotes, `//`, `/*`, `#`, backslashes and braces inside strings) are not explored"],
 }
 
 def run(prop, tier):
